@@ -338,6 +338,61 @@ for pat, what in [(r"num_components\s*==\s*1\s*&&\s*dinfo->jpeg_color_space\s*==
                   (r"D_MAX_BLOCKS_IN_MCU\s*/\s*3\s*&&\s*i\s*==\s*TJSAMP_444", "non-standard 4:4:4 case")]:
     if not re.search(pat, gs):
         die("turbojpeg.c: getSubsamp: %s is gone" % what)
+# jpegint.h compressor states; jcapimin.c / jcicc.c state checks of the marker-writing API
+jint = rd("jpegint.h")
+cstates = {k: define(jint, k, "jpegint.h") for k in ("CSTATE_START", "CSTATE_SCANNING", "CSTATE_RAW_OK", "CSTATE_WRCOEFS")}
+dstate_ready = define(jint, "DSTATE_READY", "jpegint.h")
+jca = rd("jcapimin.c")
+state_pat = (r"if\s*\(\s*cinfo->next_scanline\s*!=\s*0\s*\|\|\s*\(\s*cinfo->global_state\s*!=\s*CSTATE_SCANNING\s*&&\s*"
+             r"cinfo->global_state\s*!=\s*CSTATE_RAW_OK\s*&&\s*cinfo->global_state\s*!=\s*CSTATE_WRCOEFS\s*\)\s*\)\s*ERREXIT1\s*\(\s*cinfo\s*,\s*JERR_BAD_STATE")
+for fn in ("jpeg_write_marker", "jpeg_write_m_header"):
+    b = func_body(jca, fn, "jcapimin.c")
+    m1 = re.search(state_pat, b)
+    m2 = re.search(r"\(\*cinfo->marker->write_marker_header\)\s*\(\s*cinfo\s*,\s*marker\s*,\s*datalen\s*\)", b)
+    if not m1 or not m2 or m1.start() > m2.start():
+        die("jcapimin.c: %s no longer checks next_scanline/global_state before write_marker_header" % fn)
+wb = func_body(jc, "jpeg_write_icc_profile", "jcicc.c")
+m1 = re.search(r"if\s*\(\s*icc_data_ptr\s*==\s*NULL\s*\|\|\s*icc_data_len\s*==\s*0\s*\)\s*ERREXIT\s*\(\s*cinfo\s*,\s*JERR_BUFFER_SIZE\s*\)", wb)
+m2 = re.search(r"if\s*\(\s*cinfo->global_state\s*<\s*CSTATE_SCANNING\s*\)\s*ERREXIT1\s*\(\s*cinfo\s*,\s*JERR_BAD_STATE", wb)
+if not m1 or not m2 or m1.start() > m2.start():
+    die("jcicc.c: jpeg_write_icc_profile argument / state checks changed")
+rb2 = func_body(jd, "jpeg_read_icc_profile", "jdicc.c")
+if not re.search(r"if\s*\(\s*cinfo->global_state\s*<\s*DSTATE_READY\s*\)\s*ERREXIT1\s*\(\s*cinfo\s*,\s*JERR_BAD_STATE", rb2):
+    die("jdicc.c: jpeg_read_icc_profile state check changed")
+# tables: jutils.c jpeg_natural_order, jpeglib.h table counts, statement shapes of get_dqt / get_dht / emit_dqt
+ju = rd("jutils.c")
+mno = re.search(r"jpeg_natural_order\[DCTSIZE2 \+ 16\]\s*=\s*\{([^}]*)\}", strip_comments(ju))
+if not mno:
+    die("jutils.c: jpeg_natural_order not found")
+natorder = [int(x) for x in re.findall(r"\d+", mno.group(1))][:64]
+if sorted(natorder) != list(range(64)):
+    die("jutils.c: jpeg_natural_order is not a permutation of 0..63")
+num_qt = define(jpeglib, "NUM_QUANT_TBLS", "jpeglib.h")
+num_ht = define(jpeglib, "NUM_HUFF_TBLS", "jpeglib.h")
+dctsize2 = define(jpeglib, "DCTSIZE2", "jpeglib.h")
+gq = func_body(jdm, "get_dqt", "jdmarker.c")
+for pat, what in [(r"while\s*\(\s*length\s*>\s*0\s*\)", "loop while (length > 0)"), (r"prec\s*=\s*n\s*>>\s*4\s*;\s*n\s*&=\s*0x0F", "prec = n >> 4; n &= 0x0F"),
+                  (r"if\s*\(\s*n\s*>=\s*NUM_QUANT_TBLS\s*\)\s*ERREXIT1", "index check"),
+                  (r"quant_ptr->quantval\[jpeg_natural_order\[i\]\]\s*=\s*\(UINT16\)\s*tmp", "zigzag -> natural store"),
+                  (r"length\s*-=\s*DCTSIZE2\s*\+\s*1\s*;\s*if\s*\(\s*prec\s*\)\s*length\s*-=\s*DCTSIZE2", "length accounting"),
+                  (r"if\s*\(\s*length\s*!=\s*0\s*\)\s*ERREXIT\s*\(\s*cinfo\s*,\s*JERR_BAD_LENGTH", "final length check")]:
+    if not re.search(pat, gq):
+        die("jdmarker.c: get_dqt: '%s' is gone" % what)
+gh = func_body(jdm, "get_dht", "jdmarker.c")
+for pat, what in [(r"while\s*\(\s*length\s*>\s*16\s*\)", "loop while (length > 16)"),
+                  (r"length\s*-=\s*1\s*\+\s*16", "length -= 1 + 16"),
+                  (r"if\s*\(\s*count\s*>\s*256\s*\|\|\s*\(\(JLONG\)count\)\s*>\s*length\s*\)\s*ERREXIT", "count check"),
+                  (r"if\s*\(\s*index\s*&\s*0x10\s*\)\s*\{[^}]*index\s*-=\s*0x10", "AC/DC split"),
+                  (r"index\s*<\s*0\s*\|\|\s*index\s*>=\s*NUM_HUFF_TBLS", "index check"),
+                  (r"if\s*\(\s*length\s*!=\s*0\s*\)\s*ERREXIT\s*\(\s*cinfo\s*,\s*JERR_BAD_LENGTH", "final length check")]:
+    if not re.search(pat, gh):
+        die("jdmarker.c: get_dht: '%s' is gone" % what)
+eq = func_body(jcm, "emit_dqt", "jcmarker.c")
+for pat, what in [(r"emit_2bytes\s*\(\s*cinfo\s*,\s*prec\s*\?\s*DCTSIZE2\s*\*\s*2\s*\+\s*1\s*\+\s*2\s*:\s*DCTSIZE2\s*\+\s*1\s*\+\s*2\s*\)", "segment length"),
+                  (r"emit_byte\s*\(\s*cinfo\s*,\s*index\s*\+\s*\(prec\s*<<\s*4\)\s*\)", "Pq/Tq byte"),
+                  (r"qval\s*=\s*qtbl->quantval\[jpeg_natural_order\[i\]\]", "zigzag emission order")]:
+    if not re.search(pat, eq):
+        die("jcmarker.c: emit_dqt: '%s' is gone" % what)
 
 
 def zl(xs):
@@ -377,6 +432,11 @@ P("Definition tj_mcu_width : list Z := %s.\nDefinition tj_mcu_height : list Z :=
 for k in ("TJSAMP_444", "TJSAMP_422", "TJSAMP_420", "TJSAMP_GRAY", "TJSAMP_440", "TJSAMP_411", "TJSAMP_441", "TJSAMP_UNKNOWN"):
     P("Definition %s : Z := %d." % (k, sampv.get(k, -1)))
 P("Definition TJ_NUMSAMP : Z := %d.\nDefinition D_MAX_BLOCKS_IN_MCU : Z := %d." % (len(mcuw), dmax))
+P("Definition jpeg_natural_order : list Z := %s." % zl(natorder))
+P("Definition NUM_QUANT_TBLS : Z := %d.\nDefinition NUM_HUFF_TBLS : Z := %d.\nDefinition DCTSIZE2 : Z := %d." % (num_qt, num_ht, dctsize2))
+for k, v in cstates.items():
+    P("Definition %s : Z := %d." % (k, v))
+P("Definition DSTATE_READY : Z := %d." % dstate_ready)
 P("(* 1: tj3Transform writes the profile set by tj3SetICCProfile after the copied markers whatever the copy option is *)")
 P("Definition TJ_TRANSFORM_ICC_UNCONDITIONAL : Z := %d." % tj_icc_uncond)
 P("(* the test that sets iccCopied in tj3Transform: APP2, data_length >= MINLEN, data starts with these bytes *)")
